@@ -76,6 +76,21 @@ def scenarios(which):
                     return dict(violation=True, cases=cases, what="different arguments were served from the cache", witness=[a, k])
                 if not cf.check_call_in_cache(*a, **k):
                     return dict(violation=True, cases=cases, what="check_call_in_cache False right after the call", witness=[a, k])
+            # arguments that are equal for Python (==, same hash()) but are different values: each has its own entry, in whatever order they
+            # are seen by ONE wrapper (seeded change C02-args-digest-memo: digests memoised in a dict keyed by the raw arguments)
+            tn = define("""
+            def tn(x, y=0):
+                return (type(x).__name__, repr(x), type(y).__name__)
+            """, "tn", "modtn")
+            import itertools as _it2
+            for group in ([1, 1.0, True], [0, 0.0, False], [(1, 2), (1.0, 2)], ["a", b"a"], [frozenset([1]), frozenset([1.0])]):
+                for perm in _it2.permutations(group):
+                    ctn = Memory(tempfile.mkdtemp(dir=root), verbose=0).cache(tn)
+                    for pos, v in enumerate(perm):
+                        cases += 1
+                        if ctn(v) != tn(v) or ctn(5, y=v) != tn(5, y=v):
+                            return dict(violation=True, cases=cases, what="after the calls with %r the call with %r returned %r, the function computes %r" % (list(perm[:pos]), v, ctn(v), tn(v)),
+                                        witness=dict(arguments_in_order=[repr(x) for x in perm]))
             # dict / set arguments built in another order, ignored parameter
             g = define("""
             CALLS = []
